@@ -19,6 +19,10 @@ const char* const PROP_ID = "C10";
 const size_t PROP_MAXLEN_QUICK = 512;
 const size_t PROP_MAXLEN_THOROUGH = 1024;
 
+// work bound (instrumented comparisons) for a choice sequence of n bytes: a decompression pointer loop that is not
+// detected would otherwise hang the worker, which the drivers only report as inconclusive
+uint64_t prop_step_budget(size_t n) { return 200000000ULL + 2000000ULL * n; }
+
 typedef std::vector<uint8_t> Bytes;
 typedef std::vector<std::string> Labels;  // a domain name as its list of labels; the root name is the empty list
 
